@@ -2,6 +2,7 @@
 independent implementation of free-form statement assembly (comment stripping by the character-context automaton carried across
 continued lines, continuation joining with FORD's single-blank rule, ';' splitting in code state)."""
 from __future__ import annotations
+import re
 import itertools, os, random
 from bounded import realrun
 from harness import loader
@@ -157,13 +158,13 @@ def parser_literal_cases():
             if got != exp:
                 return {"confirmed": True, "input": {"source": src}, "actual": got, "expected": exp, "how": "real parser: (name, initial value) of the declared variables"}
     # literals in attributes and in a length expression come back as well
-    src = ("module m\n  use iso_c_binding\n  integer(c_int), bind(C, name=\"Foo_Bar\") :: cvar\n  character(len=len('ab;c')) :: s\n  integer, dimension(len(\"q!r\")) :: d\n  character(len=max(len('short'), len(\"a much longer text\"))) :: b2\n  character(kind=merge(kind('a'), kind(\"bb\"), .true.), len=2) :: k2\nend module m\n")
+    src = ("module m\n  use iso_c_binding\n  integer(c_int), bind(C, name=\"Foo_Bar\") :: cvar\n  character(len=len('ab;c')) :: s\n  integer, dimension(len(\"q!r\")) :: d\n  character(len=max(len('short'), len(\"a much longer text\"))) :: b2\n  character(kind=merge(kind('a'), kind(\"bb\"), .true.), len=2) :: k2\n  character*(len('x;y')) :: st\nend module m\n")
     try:
         f = realrun.parse_source(src)
         got = [(v.name, v.attribs, v.strlen) for v in f.modules[0].variables]
     except Exception as e:
         got = f"{type(e).__name__}: {e}"
-    exp = [("cvar", ['bind(C, name="Foo_Bar")'], None), ("s", [], "len('ab;c')"), ("d", ['dimension(len("q!r"))'], None), ("b2", [], "max(len('short'),len(\"a much longer text\"))"), ("k2", [], "2")]
+    exp = [("cvar", ['bind(C, name="Foo_Bar")'], None), ("s", [], "len('ab;c')"), ("d", ['dimension(len("q!r"))'], None), ("b2", [], "max(len('short'),len(\"a much longer text\"))"), ("k2", [], "2"), ("st", [], "len('x;y')")]
     if got != exp:
         return {"confirmed": True, "input": {"source": src}, "actual": got, "expected": exp, "how": "real parser: (name, attributes, character length) of the declared variables"}
     # ... and in the prefix of a function statement (the statement's literals are collected by the container that read it)
@@ -176,6 +177,15 @@ def parser_literal_cases():
     exp = [("f", "len('abc')", None), ("g", "2", "kind('a')")]
     if got != exp:
         return {"confirmed": True, "input": {"source": src}, "actual": got, "expected": exp, "how": "real parser: (name, length, kind) of function results typed in the prefix with a literal in the type parameters"}
+    # a PARAMETER statement: the values are separated at the commas and parentheses of the statement, never at those inside a literal
+    src = "module m\n  character(len=2) :: sep\n  character(len=2) :: opn\n  integer :: n\n  parameter (sep = ', ', opn = '(=', n = 3)\nend module m\n"
+    try:
+        got = [(v.name, v.initial) for v in realrun.parse_source(src).modules[0].variables]
+    except Exception as e:
+        got = f"{type(e).__name__}: {e}"
+    exp = [("sep", "', '"), ("opn", "'(='"), ("n", "3")]
+    if got != exp:
+        return {"confirmed": True, "input": {"source": src}, "actual": got, "expected": exp, "how": "real parser: (name, value) of constants named in a PARAMETER statement with `,` and `(` inside literals"}
     # the `lower` option lower-cases code, never the text of a literal
     src = ("module m\n  CHARACTER(len=*), PARAMETER :: Greeting = 'Hello; World ! \"Not\" A Comment & More', Name = \"Worker_C_Name\"\n  character(len=8) :: Late\n"
            "  parameter (Late = 'Mixed Up')\nend module m\n")
@@ -260,6 +270,19 @@ def include_and_doc_layouts():
         if gotv != wantv:
             return {"confirmed": True, "input": {"source": text, "empty.inc": "! only a comment", "decl.inc": "integer :: b"}, "actual": gotv, "expected": wantv,
                     "how": "real parser: variables of a module that includes a file without statements"}
+    # indentation is layout: an alternate-mark block (`!*` then plain `!` lines) reads the same in column 1 and indented
+    rd = loader.import_repo("ford.reader")
+    res = {}
+    for label, ind in (("column 1", ""), ("indented", "   "), ("tab", "\t")):
+        text = f"subroutine s(a)\n{ind}!* alternate block about s\n{ind}! goes on here\n{ind}! and here\n{ind}integer a\nend subroutine s\n"
+        with realrun.project_dir({"t.f90": text}) as d:
+            try:
+                res[label] = [re.sub(r"\s+", " ", l).strip() for l in rd.FortranReader(os.path.join(d, "t.f90"), docmark="!", predocmark=">", docmark_alt="*", predocmark_alt="|")]
+            except Exception as e:
+                res[label] = f"{type(e).__name__}: {e}"
+    if len({repr(v) for v in res.values()}) != 1 or not any("goes on here" in l for l in res["column 1"]):
+        return {"confirmed": True, "input": {"layouts": "an alternate-mark doc block in column 1, indented by blanks, indented by a tab"}, "actual": res, "expected": "the same lines for the three layouts, block lines kept",
+                "how": "real FortranReader with the default marks"}
     src = ("module m\n  use iso_fortran_env\n  !! Set mode to \"fast\" or 'safe', don't mix\n  implicit none\n  !! it's 'quoted' again\n  integer :: x\nend module m\n")
     try:
         m = realrun.parse_source(src).modules[0]
